@@ -7,6 +7,7 @@
 #include <frg/logging.hpp>
 #include <frg/cmdline.hpp>
 #include <frg/span.hpp>
+#include <frg/string.hpp>
 
 namespace wit {
 struct Sink {
@@ -28,7 +29,8 @@ template void frg::do_printf_floats<wit::Sink>(wit::Sink &, char, frg::format_op
 template struct frg::stack_buffer_logger<wit::LogSink, 16>;
 
 namespace wit {
-inline void use_fmt(Sink &s, frg::string_view v) {
+inline void use_fmt(Sink &s, frg::string_view v, const frg::string<Alloc> &owned) {
+	frg::format(owned, s);
 	frg::format(frg::fmt("{} {1:08x}", 1, 2u), s);
 	frg::format(frg::fmt("plain"), s);
 	frg::format(v, s);
